@@ -88,6 +88,12 @@ class SymNP:
     def __getattr__(self, name):
         return getattr(_np, name)
 
+    @property
+    def pi(self):
+        from .angles import PiMultiple
+
+        return PiMultiple(2)
+
     # -- constructors --------------------------------------------------------------------------
     def _numeric(self, dtype):
         return _kind(dtype) in ("f", "c", None) and self._sfa
